@@ -1,8 +1,9 @@
 #!/usr/bin/env python3
-"""Archives the round-2 seeded changes (/tmp/seed2-Cxx written by sub-agents) under
-/verif/seeded/r2-Cxx-k/ together with what was confirmed and which check run caught them.
-usage: archive_r2.py <first-run results dir> [<later results dir> ...]"""
+"""Archives the seeded changes of one round (/tmp/seed<N>-Cxx written by sub-agents) under
+/verif/seeded/r<N>-Cxx-k/ together with what was confirmed and which check run caught them.
+usage: ROUND=2 archive_seeds.py <first-run results dir> [<later results dir> ...]"""
 import glob, json, os, re, shutil, sys
+ROUND = os.environ.get('ROUND', '2')
 
 dirs = sys.argv[1:]
 root = os.path.dirname(os.path.dirname(os.path.abspath(__file__)))
@@ -27,7 +28,7 @@ def detected(res):
     return False
 
 rows = []
-for sd in sorted(glob.glob('/tmp/seed2-C*')):
+for sd in sorted(glob.glob(f'/tmp/seed{ROUND}-C*')):
     prop = os.path.basename(sd).split('-')[1]
     for k in '123':
         patch = os.path.join(sd, f'patch{k}.diff')
@@ -39,7 +40,7 @@ for sd in sorted(glob.glob('/tmp/seed2-C*')):
         first = runs[0]
         if not first or not first.get('confirmed'):
             continue
-        out = os.path.join(root, 'seeded', f'r2-{seed}')
+        out = os.path.join(root, 'seeded', f'r{ROUND}-{seed}')
         os.makedirs(out, exist_ok=True)
         shutil.copy(patch, os.path.join(out, 'patch.diff'))
         shutil.copy(demo, os.path.join(out, 'demo_test.go'))
@@ -54,8 +55,8 @@ for sd in sorted(glob.glob('/tmp/seed2-C*')):
                 lines = [l.replace('/tmp/verif-snap', '/verif') for l in c['lines'] if not l.startswith('RESULT')][:3]
                 break
         meta = {
-            'property': prop, 'seed': f'r2-{seed}', 'files_changed': files,
-            'origin': 'written by an independent sub-agent given only the property text and a scratch worktree of /repo (round 2)',
+            'property': prop, 'seed': f'r{ROUND}-{seed}', 'files_changed': files,
+            'origin': 'written by an independent sub-agent given only the property text and a scratch worktree of /repo (round ' + ROUND + ')',
             'confirmed_by_me': {
                 'patch_applies': first.get('applies'),
                 'suite_passes_with_change': first.get('suite_passes_with_change'),
@@ -77,4 +78,4 @@ for seed, files, det, lines in rows:
     if lines:
         m = re.search(r'^\s+(\S+?)[/:]', lines[1] if len(lines) > 1 else '')
         what = m.group(1) if m else ''
-    print(f'| r2-{seed} | {",".join(files)} | {"first run" if det[0] else ("after: " + what if any(det) else "MISSED")} |')
+    print(f'| r{ROUND}-{seed} | {",".join(files)} | {"first run" if det[0] else ("after: " + what if any(det) else "MISSED")} |')
